@@ -1,4 +1,5 @@
 import BoltonsVerif.C18.Proofs
+import BoltonsVerif.C18.Round5
 /-
 C18 — property theorems (statements, short derivations from the lemma files, non-vacuity examples).
 
@@ -312,6 +313,91 @@ theorem mfr_seek0_restarts (cs : List (List α)) (ops : List MOp) :
   simp only [MFR.specRun, MFR.specStep, File.readAll_fst]
   rw [File.rest_seek0, MFR.specRun_data]
 
+/-! ## round 5: calls that are REJECTED (raise before storing anything) inside a history -/
+
+/-- SpooledBytesIO: in a history with rejected calls (`write('text')`, `write(None)`, `seek(0, 7)`, `truncate(-1)`,
+    `read('a')` … - they raise and leave the object alone) the accepted calls return, and leave behind, exactly what
+    the history WITHOUT the rejected calls does; a rejected call returns nothing -/
+theorem rejected_calls_invisible_bytes (m : Nat) (cs : List (Call Byte)) :
+    acceptedOuts cs ((SBytes.init m).runCalls cs).1 = ((SBytes.init m).run (accepted cs)).1 ∧
+    ((SBytes.init m).runCalls cs).2 = ((SBytes.init m).run (accepted cs)).2 ∧
+    (∀ o ∈ rejectedOuts cs ((SBytes.init m).runCalls cs).1, o = Out.unit) := by
+  have h := runCalls_spec SBytes.step (SBytes.init m) cs
+  rw [SBytes.run_eq_runOps]
+  exact ⟨h.1, h.2.1, h.2.2.1⟩
+
+/-- the same for SpooledStringIO (a rejected call there is also the write of a str that UTF-8 cannot encode) -/
+theorem rejected_calls_invisible_string (ms ch : Nat) (cs : List (Call Char)) :
+    acceptedOuts cs ((SStr.init ms ch).runCalls cs).1 = ((SStr.init ms ch).run (accepted cs)).1 ∧
+    ((SStr.init ms ch).runCalls cs).2 = ((SStr.init ms ch).run (accepted cs)).2 ∧
+    (∀ o ∈ rejectedOuts cs ((SStr.init ms ch).runCalls cs).1, o = Out.unit) := by
+  have h := runCalls_spec SStr.step (SStr.init ms ch) cs
+  rw [SStr.run_eq_runOps]
+  exact ⟨h.1, h.2.1, h.2.2.1⟩
+
+/-- hence: what the accepted calls return, and the content and position at the end, are those of an io.BytesIO that
+    SKIPPED the rejected calls - whatever `max_size` -/
+theorem bytes_refines_BytesIO_with_rejected_calls (m : Nat) (cs : List (Call Byte))
+    (hv : validB File.empty (accepted cs) = true) :
+    acceptedOuts cs ((SBytes.init m).runCalls cs).1 = (Spec.run bytesSem File.empty (accepted cs)).1 ∧
+    ((SBytes.init m).runCalls cs).2.buf = (Spec.run bytesSem File.empty (accepted cs)).2 := by
+  have h := rejected_calls_invisible_bytes m cs
+  have r := bytes_refines_BytesIO m (accepted cs) hv
+  exact ⟨by rw [h.1, r.1], by rw [h.2.1, r.2]⟩
+
+/-- … and of an io.StringIO(newline='') that skipped them: same answers, `tell()` = its code-point position (a failed
+    write does not advance it), stored bytes = the encoding of its text -/
+theorem string_refines_StringIO_with_rejected_calls (ms ch : Nat) (hch : 0 < ch) (cs : List (Call Char))
+    (hv : validS File.empty (accepted cs) = true) :
+    acceptedOuts cs ((SStr.init ms ch).runCalls cs).1 = (Spec.run textSem File.empty (accepted cs)).1 ∧
+    ((SStr.init ms ch).runCalls cs).2.tell = (Spec.run textSem File.empty (accepted cs)).2.pos ∧
+    ((SStr.init ms ch).runCalls cs).2.st.data = encode (Spec.run textSem File.empty (accepted cs)).2.data := by
+  have h := rejected_calls_invisible_string ms ch cs
+  have r := string_refines_StringIO ms ch hch (accepted cs) hv
+  exact ⟨by rw [h.1, r.1], by rw [h.2.1, r.2.1], by rw [h.2.1, r.2.2]⟩
+
+/-- which write is rejected is the model's own decision: a text that arrives as bytes is written only if the model's
+    real-bytes UTF-8 decoder takes all of it - the three bytes a lone surrogate would have (U+D800 `ED A0 80`, U+DC00
+    `ED B0 80`, U+DFFF `ED BF BF`) are refused wherever they stand, a well-formed text is a write -/
+theorem lone_surrogate_write_is_rejected :
+    (rawWrite [0x62, 0x61, 0x64, 0xED, 0xA0, 0x80]).isNone = true ∧ (rawWrite [0xED, 0xB0, 0x80]).isNone = true ∧
+    (rawWrite [0xC3, 0xA9, 0xED, 0xBF, 0xBF, 0xF0, 0x9F, 0x98, 0x80]).isNone = true ∧
+    (rawWrite [0x62, 0xC3, 0xA9, 0xF0, 0x9F, 0x98, 0x80]).isSome = true ∧
+    textOfBytes? [0x62, 0xC3, 0xA9, 0xF0, 0x9F, 0x98, 0x80] = some ['b', 'é', Char.ofNat 0x1F600] := by
+  decide +kernel
+
+/-- `writelines` with a piece that is refused: the pieces before it are written, the rest is not -/
+theorem writelines_stops_at_refused_piece :
+    (rawWritelines (α := Char) .writelines [some ['o', 'k'], textOfBytes? [0x62, 0xED, 0xA0, 0x80], some ['n', 'o']]).isSome
+      = true ∧
+    goodPrefix [some ['o', 'k'], textOfBytes? [0x62, 0xED, 0xA0, 0x80], some ['n', 'o']] = [['o', 'k']] ∧
+    (rawWritelines (α := Char) .writelines [textOfBytes? [0xED, 0xA0, 0x80], some ['n', 'o']]).isNone = true := by
+  decide +kernel
+
+/-! ## round 5: MultiFileReader over members that are NOT at offset 0 when they are handed over -/
+
+/-- first pass (reads only): the reader delivers what each member still had to deliver, in order - the concatenation
+    of the members' UNREAD parts, each unit exactly once -/
+theorem mfr_offset_first_pass (fs : List (File α)) (ops : List MOp) (hr : ∀ op ∈ ops, op.isRead = true) :
+    ((MFR.initAt fs).run ops).1 = (MFR.specRun ⟨(fs.map File.rest).flatten, 0⟩ ops).1 ∧
+    (((MFR.initAt fs).run ops).1.filterMap id).flatten ++ ((MFR.initAt fs).run ops).2.rem
+      = (fs.map File.rest).flatten := by
+  have h := MFR.run_reads_specR (MFR.initAt fs) ⟨(fs.map File.rest).flatten, 0⟩ ops hr (MRelR_initAt fs)
+  refine ⟨h.1, ?_⟩
+  rw [h.1, ← h.2.1.1, MFR.specRun_reads _ ops hr]
+  simp [File.rest]
+
+/-- `seek(0)` rewinds EVERY member, wherever each one stood and however far the reads got: from then on the reader
+    is one file holding the concatenation of the members' WHOLE contents (any mix of reads and further `seek(0)`) -/
+theorem mfr_offset_seek0_restarts (fs : List (File α)) (ops₁ ops₂ : List MOp) :
+    ((MFR.initAt fs).run (ops₁ ++ .seek0 :: ops₂)).1 =
+      ((MFR.initAt fs).run ops₁).1 ++ none :: (MFR.specRun ⟨(fs.map File.data).flatten, 0⟩ ops₂).1 := by
+  have hc := MFR.run_inv_contents (MFR.initAt fs) ops₁ (MFR.initAt_inv fs)
+  rw [MFR.run_append]
+  simp only [MFR.run, MFR.step]
+  rw [MFR.seek0_eq_init, hc.2, mfr_concat]
+  rfl
+
 /-! ## non-vacuity: concrete histories inside the hypotheses -/
 
 /-- a history with a rollover (by max_size 4, or explicit), multi-byte text, a read that stops inside a
@@ -384,5 +470,21 @@ example : splitB (realBytes (encode ['é', '\r', '\n', Char.ofNat 0x85, '\r', 'b
 
 example : ((MFR.init [[1, 2], [], [3, 4, 5]] : MFR Nat).run [.read 3, .read 1, .seek0, .read 4, .readAll]).1
     = [some [1, 2, 3], some [4], none, some [1, 2, 3, 4], some [5]] := by decide +kernel
+
+/-- round 5: a history with rejected calls (a write of the wrong type / of a lone surrogate between two writes, a bad
+    whence after a read): inside the hypothesis, the rejected calls are really there, and the second write lands where
+    the first one ended -/
+def demoX : List (Call Char) :=
+  [some (.write ['h', 'é']), rawWrite [0x62, 0xED, 0xA0, 0x80], none, some .tell, some (.write ['\n', 'x']), some (.seek 1),
+   some (.read 1), none, some .readAll, some .getvalue]
+example : validS File.empty (accepted demoX) = true ∧ demoX.length = (accepted demoX).length + 3 := by decide +kernel
+example : ((SStr.init 3 2).runCalls demoX).1 =
+    [.unit, .unit, .unit, .num 2, .unit, .num 1, .data ['é'], .unit, .data ['\n', 'x'], .data ['h', 'é', '\n', 'x']] := by
+  decide +kernel
+
+/-- round 5: members handed over just written (at the end), with a header consumed, and at 0 -/
+example : ((MFR.initAt [⟨[1, 2], 2⟩, ⟨[3, 4, 5], 1⟩, ⟨[6], 0⟩] : MFR Nat).run
+      [.read 1, .readAll, .seek0, .read 4, .readAll]).1
+    = [some [4], some [5, 6], none, some [1, 2, 3, 4], some [5, 6]] := by decide +kernel
 
 end C18
